@@ -57,10 +57,10 @@ def build(cfg, costream):
     return exe, ''
 
 
-def search(prop, failure):
+def search(prop, failure, fallback=None):
     if os.environ.get('VX_NO_WITNESS'):
         return dict(found=False, note='witness search disabled (VX_NO_WITNESS)')
-    tg = targets_for(failure['unit'])
+    tg = targets_for(failure['unit']) or list(fallback or [])   # a leaf / dependency unit: every family of the property
     if not tg:
         return dict(found=False, note='no witness family for unit %s' % failure['unit'])
     cfg = 'std' if failure.get('cfg', 'std') == 'std' else 'nostd'
